@@ -28,6 +28,24 @@ def snapPlan (s : St) (c : Cells) : String :=
 
 def runC19 (fields : List String) (obs : String) : String × String × String :=
   match fields with
+  | ["resolve", kt, _cls, _hexsrc] =>
+    -- an assignment-free program of the whole expression language: by C19_no_assignment_identity every
+    -- later snapshot is the first one (the first one is taken from the observation: the expression
+    -- language is not re-modelled here)
+    if obs == "skip" then ("skip", "ok", "-") else
+    (match kt.toNat?, obs.splitOn "#" with
+     | some k, [seq, i2, bulk] =>
+       let os := seq.splitOn "@"
+       let first := os.headD ""
+       let model := "@".intercalate (List.replicate (k + 1) first) ++ "#i2:" ++ first ++ "#bulk:" ++ first
+       let verdict :=
+         if i2 != "i2:" ++ first then "bad:two interpreters disagree after the first evaluation"
+         else if bulk != "bulk:" ++ os.getLastD "" then "bad:n single steps differ from one request for n steps"
+         else if !os.all (· == first) then "bad:re-evaluation changed a program without assignments"
+         else if os.length != k + 1 then "bad:step failed"
+         else "ok"
+       (model, verdict, "-")
+     | _, _ => ("bad-case", "bad-case", "-"))
   | [_, kt, body] =>
     match kt.toNat?, (body.splitOn ";;").mapM parsePStmt with
     | some k, some prog =>
